@@ -20,7 +20,7 @@ T = {
  "C03": ("exploration", "5/C03", "grammar-generated .xz files + strict-parser/liblzma-validated expected output (proptest)",
          "Generated well-formed .xz files over block counts, check types, optional size fields, header padding, payload shapes; each file is first accepted by liblzma and the harness' strict parser, then lzma-rs must decode it exactly."),
  "C04": ("exploration", "5/C04", "round-trip + differential against independent decoders (proptest)",
-         "Generated inputs (length/content classes incl. carry-propagation and 64 KiB boundaries) x encoder options x reader fragmentation (and, up to 70 000 bytes, a sink accepting only part of each write, which must receive the same bytes); encoder output must decode with lzma-rs, with the independent reference decoders (strict end rules) and with liblzma."),
+         "Generated inputs (length/content classes incl. carry-propagation and 64 KiB boundaries) x encoder options x reader fragmentation (and, up to 70 000 bytes, a sink accepting only part of each write, which must receive the same bytes); a fixed case compresses more than 4 GiB (index/footer arithmetic); a 13-byte .lzma header must be one xz's auto-detection recognises; encoder output must decode with lzma-rs, with the independent reference decoders (strict end rules) and with liblzma."),
  "C05": ("exploration", "5/C05", "differential: Stream under generated chunkings vs one-shot decoder (proptest + libFuzzer)",
          "Differential check over generated inputs (valid, mutated, continued, random) x options x compositions into write calls with cuts targeted inside header, preamble and symbols (incl. a constructed ~18-byte symbol cut at every offset)."),
  "C06": ("fault_enumeration", "5/C06", "per-file exhaustive fault enumeration (bit flips, truncations, sealed field mutations) over generated files",
@@ -36,7 +36,7 @@ T = {
  "C11": ("exploration", "5/C11", "generated payload + trailing bytes, reader position oracle from the encoder's normalisation count (proptest)",
          "Payload followed by arbitrary bytes through slice/Cursor/BufReader/custom BufRead; reader position after success must equal the payload length computed by the reference encoder; whole-file decoders must reject trailing bytes."),
  "C12": ("fault_enumeration", "5/C12", "per-input exhaustive I/O fault enumeration (every write/read call) over generated inputs",
-         "Per generated input every write-call and read-call fault position is enumerated for all encoders/decoders and Stream, plus short-write and failing-flush sinks; inputs are sampled."),
+         "Per generated input every write-call and read-call fault position is enumerated (the injected io::Error built in six different ways) for all encoders/decoders and Stream, plus short-write and failing-flush sinks; inputs are sampled."),
  "C13": ("exploration", "5/C13", "differential: fragmented readers vs all-at-once reader (proptest + libFuzzer)",
          "Same input through BufReader(cap) and a custom BufRead with generated refill boundaries (targeted at format field boundaries) must give the same verdict, output and consumed count as the slice reader."),
  "C14": ("exploration", "5/C14", "model-based operation histories on one decoder object vs fresh decoder (proptest)",
